@@ -58,7 +58,7 @@ impl Variable {
             | Variable::Function(value) => format!("{value}"),
             Variable::Array(value) => value.string(depth),
             Variable::Mut(value) => value.string(depth+1),
-            Variable::Tuple(elements) => format!("({})", elements.iter().map(|v| v.debug(depth+1)).collect::<Box<[_]>>().join(", ")),
+            Variable::Tuple(elements) => format!("({})", elements.iter().map(|v| v.debug(depth)).collect::<Box<[_]>>().join(", ")),
             Variable::Struct(vm) => {
                 let elements = vm.iter().map(|(key, value)| format!("{}={}", key, value.debug(depth))).join(", ");
                 format!("struct{{{elements}}}")
